@@ -92,6 +92,48 @@ def stepCheck (st : St) (ins impl : List String) : Option (St × String) := do
     else some "C19.verdict"
   pure ({ st with cache := pick.2 }, verdict agree spec modelStr)
 
+def showReason : HostReason → String
+  | .notFiltered => "none" | .safeBrowsing => "sb" | .parental => "pc" | .failed => "err"
+
+def parseReason (s : String) : Option HostReason :=
+  match s with
+  | "none" => some .notFiltered | "sb" => some .safeBrowsing | "pc" => some .parental | "err" => some .failed
+  | _ => none
+
+def showQ : Option Bytes → String
+  | none => "-"
+  | some q => hexEncode q
+
+def parseQ (s : String) : Option (Option Bytes) :=
+  if s == "-" then some none else (hexDecode s).map some
+
+/-- C19.host: one CheckHost call with fresh checkers (stateless). -/
+def stepHost (ins impl : List String) : Option String := do
+  let ((host, setts, sufS, sufP, ps, icann, pairs, dbS, dbP), _) ← (do
+      let host ← pHex
+      let f ← pBool; let sb ← pBool; let pc ← pBool; let pr ← pBool
+      let sufS ← pHex; let sufP ← pHex; let ps ← pHex; let icann ← pBool
+      let pairs ← pList (do let s ← pHex; let h ← pHex; pure (s, h))
+      let dbS ← pList pHex; let dbP ← pList pHex
+      pEnd
+      pure (host, (⟨f, sb, pc, pr⟩ : HostSetts), sufS, sufP, ps, icann, pairs, dbS, dbP) : P _).run ins
+  let name := AGH.Bytes.lower host
+  if !(subdomains name).all (fun s => (pairs.lookup s).isSome) then none
+  if !pairs.all (fun p => p.2.length == 32) || !(dbS ++ dbP).all (fun h => h.length == 32) then none
+  if sufS.isEmpty || sufP.isEmpty then none
+  let H : Bytes → Hash := fun s => (pairs.lookup s).getD []
+  let psOf : Bytes → Bytes × Bool := fun _ => (ps, icann)
+  let m := checkHostSB setts sufS sufP H psOf (serve dbS plainScript) (serve dbP plainScript) host
+  let showO (o : HostOut) := "\t".intercalate [showReason o.reason, showQ o.sbQuestion, showQ o.pcQuestion]
+  let io : HostOut ← (match impl with
+    | [r, a, b] => do pure ⟨← parseReason r, ← parseQ a, ← parseQ b⟩
+    | _ => none)
+  let ci : HostIn := ⟨setts, sufS, sufP, dbS, dbP, host, H, psOf⟩
+  let spec : Option String :=
+    if hostSpecOK ci io then none
+    else if io.reason == hostVerdict ci then some "C19.host-privacy" else some "C19.host-verdict"
+  pure (verdict (showO m == "\t".intercalate impl) spec (showO m))
+
 def step (st : St) (line : String) : St × String :=
   let fs := splitTab line
   match fs with
@@ -107,6 +149,10 @@ def step (st : St) (line : String) : St × String :=
         if !db.all (fun h => h.length == 32) then (st, "bad-op") else
         (⟨⟨suffix, ttl⟩, db, Cache.new maxSize, 0, true⟩, verdict (impl == ["ok"]) none "ok")
       | none => (st, "bad-op")
+    | none => (st, "bad-op")
+  | "C19.host" :: rest =>
+    match splitArrow rest with
+    | some (ins, impl) => (st, (stepHost ins impl).getD "bad-op")
     | none => (st, "bad-op")
   | "C19.sleep" :: rest =>
     match splitArrow rest with
